@@ -212,6 +212,47 @@ def describe(b, v, projs):
     return n + ''.join('.' + x for x in names)
 
 
+def table_built_in_map_closure(facts, b, v, leader, growth_blocks):
+    """Option local `v` = something.map(closure) where the closure returns a vector it sized from the class leader's len():
+    returns (ok, message) or None when `v` is not of that shape"""
+    ds = b.defs().get(v, [])
+    if len(ds) != 1 or ds[0][1] != 'call' or cname(ds[0][2]) not in ('map', 'and_then') or len(ds[0][2]['args']) < 2:
+        return None
+    mb, _k, t = ds[0]
+    cl = op_local(t['args'][1])
+    cb = None
+    for _bb, kind, rv in b.defs().get(cl, ()):
+        if kind == 'stmt' and 'agg' in rv and isinstance(rv['agg'], dict) and 'closure' in rv['agg']:
+            cb = facts.bodies.get(rv['agg']['closure'])
+    if cb is None:
+        return None
+    # what the closure returns
+    r, projs, via = cb.op_root({'copy': {'l': 0, 'p': []}}, through=CHASE, stop_named=True)
+    if not cb.lty(r).startswith(('alloc::vec::Vec<', 'vob::Vob<')):
+        return None
+    vinit, vdef = init_len(cb, r)
+    lname = b.name_of(leader)
+    if vinit[0] != 'len' or [nm for _bb, nm in vec_ops(cb, r) if nm in GROW or nm in OTHER_GROW]:
+        return False, 'the table built in the closure handed to %s() is not sized from a len() (%s)' % (cname(t), vinit)
+    # the len() operand inside the closure is a captured variable: which one?
+    # the len() that sizes the table must be taken of the captured class leader (environment field -> captured variable)
+    okrecv = False
+    dd = cb.defs().get(cb.op_root(cb.defs()[r][0][2]['args'][1], through=())[0], []) if cb.defs().get(r) and len(cb.defs()[r][0][2].get('args', [])) > 1 else []
+    for d in dd:
+        if d[1] == 'call' and cname(d[2]) == 'len':
+            rr, rp, rv_ = cb.op_root(d[2]['args'][0])
+            fs = [q['f'] for pl in rp for q in pl if isinstance(q, dict) and 'f' in q]
+            if rr == 1 and fs and cb.upvars().get(fs[0]) == lname:
+                okrecv = True
+    if not okrecv:
+        return False, 'the table built in the closure is not sized from the captured class leader `%s`' % lname
+    after = b.reachable([mb])
+    late = [bb for bb in growth_blocks if bb in after and bb != mb]
+    if late:
+        return False, 'the table is sized from `%s`.len() in a closure run before `%s` stops growing' % (lname, lname)
+    return True, 'built by the closure handed to %s(): sized from `%s`.len() after the last growth of `%s`' % (cname(t), lname, lname)
+
+
 def r101(facts, res):
     R = 'R10.1'
     classes = indexed_fields(facts, res, R)
@@ -267,6 +308,13 @@ def r101(facts, res):
                 for d in b.defs().get(v, []):
                     if d[1] == 'stmt' and 'agg' in d[2] and isinstance(d[2]['agg'], dict) and d[2]['agg'].get('vname') == 'Some':
                         v, projs, via = b.op_root(d[2]['ops'][0], through=CHASE, stop_named=True)
+            if b.lty(v).startswith('core::option::Option<'):
+                # `opt.map(|x| { build the table; table })`: the table is built inside the closure, when the map call runs
+                got = table_built_in_map_closure(facts, b, v, leader, last_growth_blocks)
+                if got is not None:
+                    okm, msg = got
+                    (res.ok if okm else res.bad)(R, key, where, msg)
+                    continue
             if v == leader:
                 res.ok(R, key, where, 'is the class leader `%s` (its len() is %s); indexed by %s()' % (lname, lenfield[cls], acc))
                 continue
